@@ -95,3 +95,5 @@ def extra_coverage(outdir, impl):
         except Exception:
             pass
     return {"per_package": per}
+
+RULE = RULE + (" Buffered run: in a quarter of the cases one wrapped-provider call (the n-th) does not return on its own but only when the wrapped provider's own Close is called (a real SweepingProvider call that is ended by its shutdown), so Close of the buffered provider must close the wrapped provider before waiting for its worker.")
